@@ -26,7 +26,7 @@ pub fn spelling_trees_exact(k: usize) -> Vec<String> {
   out
 }
 
-pub const SPELLING_CONTEXTS: [(&str, &str); 10] = [
+pub const SPELLING_CONTEXTS: [(&str, &str); 13] = [
   ("closed-parameter", "Main.takeOpt(@)"),
   ("generic-function-closed-parameter", "Main.pickA(@, 0)"),
   ("generic-function-closed-parameter-last", "Main.pickB(0, @)"),
@@ -37,11 +37,16 @@ pub const SPELLING_CONTEXTS: [(&str, &str); 10] = [
   ("generic-hof-matching-lambda", "Main.fold2(@, 0, (p, q) -> match p { None -> q, Some(w) -> w + q })"),
   ("generic-hof-matching-lambda-swapped", "Main.fold3(0, @, (q, p) -> match p { None -> q, Some(w) -> w + q })"),
   ("generic-hof-half-annotated-lambda", "Main.fold2(@, 0, (p, q: int) -> match p { None -> q, Some(w) -> w + q })"),
+  // two type parameters, each determined by a different argument; the argument carrying the shape
+  // may be only partially known on the first pass
+  ("two-type-parameters-lambda-first", "Main.apply2((n) -> n + 1, Two.init(@, 41), Option.Some(7))"),
+  ("two-type-parameters-lambda-last", "Main.apply3(Two.init(@, 41), Option.Some(7), (n) -> n + 1)"),
+  ("two-type-parameters-no-lambda", "Main.second(Two.init(@, 41), Option.Some(7))"),
 ];
 
 pub fn spelling_module(body: &str) -> String {
   format!(
-    "class Option<T>(None, Some(T)) {{}}\nclass Box<T>(val v: T) {{\n  method <R> w(a: Option<T>, r: R): int = match a {{ None -> 0, Some(_) -> 1 }}\n}}\nclass Main {{\n  function <T> id(x: T): T = x\n  function <T> first(a: T, b: T): T = a\n  function <T> app(f: () -> T): T = f()\n  function <T> size(a: Option<T>): int = match a {{ None -> 0, Some(_) -> 1 }}\n  function takeOpt(a: Option<int>): int = match a {{ None -> 0, Some(n) -> n + 1 }}\n  function <T> pickA(a: Option<int>, b: T): int = Main.takeOpt(a)\n  function <T> pickB(b: T, a: Option<int>): int = Main.takeOpt(a)\n  function <A, B> fold2(a: A, b: int, f: (A, int) -> B): B = f(a, b)\n  function <A, B> fold3(b: int, a: A, f: (int, A) -> B): B = f(b, a)\n  function run(c: bool, o: Option<bool>, d: Option<int>): int =\n    {body}\n  function main(): unit = {{\n    Process.println(Str.fromInt(Main.run(true, Option.Some(true), Option.Some(5))));\n    Process.println(Str.fromInt(Main.run(false, Option.None(), Option.None())))\n  }}\n}}\n"
+    "class Option<T>(None, Some(T)) {{}}\nclass Two<A, B>(val a: A, val b: B) {{}}\nclass Box<T>(val v: T) {{\n  method <R> w(a: Option<T>, r: R): int = match a {{ None -> 0, Some(_) -> 1 }}\n}}\nclass Main {{\n  function <T> id(x: T): T = x\n  function <T> first(a: T, b: T): T = a\n  function <T> app(f: () -> T): T = f()\n  function <T> size(a: Option<T>): int = match a {{ None -> 0, Some(_) -> 1 }}\n  function takeOpt(a: Option<int>): int = match a {{ None -> 0, Some(n) -> n + 1 }}\n  function <T> pickA(a: Option<int>, b: T): int = Main.takeOpt(a)\n  function <T> pickB(b: T, a: Option<int>): int = Main.takeOpt(a)\n  function <A, B> fold2(a: A, b: int, f: (A, int) -> B): B = f(a, b)\n  function <A, B> fold3(b: int, a: A, f: (int, A) -> B): B = f(b, a)\n  function <A, B> apply2(k: (B) -> int, p: Two<A, B>, a: A): int = k(p.b)\n  function <A, B> apply3(p: Two<A, B>, a: A, k: (B) -> int): int = k(p.b)\n  function <A, B> second(p: Two<A, B>, a: A): B = p.b\n  function run(c: bool, o: Option<bool>, d: Option<int>): int =\n    {body}\n  function main(): unit = {{\n    Process.println(Str.fromInt(Main.run(true, Option.Some(true), Option.Some(5))));\n    Process.println(Str.fromInt(Main.run(false, Option.None(), Option.None())))\n  }}\n}}\n"
   )
 }
 
